@@ -42,6 +42,21 @@ Theorem c11_readonly_free : forall c actors sched i n l ins rest,
 Proof. exact c11_readonly_free_proof. Qed.
 Print Assumptions c11_readonly_free.
 
+(* ... for every actor of every system only an acquire can wait, and the code of a read-only call
+   (envelope or agent-loop site, attached or not) contains no acquire *)
+Theorem c11_only_acquire_waits : forall f sched i ins rest,
+  code (run f sched) i = ins :: rest -> ins <> IAcq ->
+  code (step (run f sched) i) i = rest
+  /\ trace (step (run f sched) i) = (i, ins) :: trace (run f sched).
+Proof. exact only_acquire_waits. Qed.
+Print Assumptions c11_only_acquire_waits.
+
+Theorem c11_readonly_call_no_acquire : forall c l k,
+  wf_cfg c = true ->
+  ~ In IAcq (compile_span l k false (span_ro c)) /\ ~ In IAcq (compile_span l k false (span_loop_ro c)).
+Proof. exact readonly_call_no_acq. Qed.
+Print Assumptions c11_readonly_call_no_acquire.
+
 (* frames on the thread are in the order of the End events of the logged mutating calls: the
    frame list is the End list minus at most its newest element, and equal to it whenever the
    permit is free (in particular at the end of every complete run) *)
@@ -104,3 +119,18 @@ Example c11_blocked_then_ordered :
   /\ holder (run (sys ref_cfg ex_actors) ex_sched_blocked) = None
   /\ code (run (sys ref_cfg ex_actors) ex_sched_blocked) 4%nat = [].
 Proof. exact ex_blocked. Qed.
+
+(* the generated obligation is not decoration: with the guard released before the append the frames
+   come out of order, with the guard taken after the tool started two mutating calls overlap *)
+Example c11_wf_needed_order :
+  wf_cfg bad_cfg_release_early = false
+  /\ holder (run (sys bad_cfg_release_early two_writers) sched_release_early) = None
+  /\ ends_a (tr_of bad_cfg_release_early two_writers sched_release_early) = [(1%nat, 0%N); (0%nat, 0%N)]
+  /\ frames (tr_of bad_cfg_release_early two_writers sched_release_early) = [(0%nat, 0%N); (1%nat, 0%N)].
+Proof. exact bad_release_early. Qed.
+
+Example c11_wf_needed_mutex :
+  wf_cfg bad_cfg_acquire_late = false
+  /\ is_open (tr_of bad_cfg_acquire_late two_writers [0%nat; 1%nat]) 0%nat = true
+  /\ is_open (tr_of bad_cfg_acquire_late two_writers [0%nat; 1%nat]) 1%nat = true.
+Proof. exact bad_acquire_late. Qed.
